@@ -66,6 +66,9 @@ for it in range(R.n(60, 1500)):
     else:
         b0, b1, br = 0, n, None
     f0 = fr.fmin + rng.uniform(1, n - 2) * df
+    if rng.random() < 0.2:
+        # signal centre outside the band (by less than the profile reach): the product is still non-zero in the edge channels
+        f0 = rng.choice([fr.fmin - rng.uniform(0.3, 2.5) * df, fr.fmax + rng.uniform(0.3, 2.5) * df])
     drift = rng.uniform(-2, 2) * df / dt
     pform, tform, bform = rng.choice('cas'), rng.choice('cas'), rng.choice('ncas')
     pfun = lambda t: f0 + drift * t + 0.1 * df * np.sin(t)
